@@ -21,13 +21,14 @@ var c18Parsers = []string{
 	"uePolicyContainer.parseUEPlcSubResult", "(*uePolicyContainer.UEPolicySectionManagementResultContent).UnmarshalBinary",
 	"(*uePolicyContainer.UEPolicySectionManagementList).UnmarshalBinary", "(*uePolicyContainer.UEPolicySectionManagementResult).UnmarshalBinary",
 	"(*uePolicyContainer.UEPolicySectionManagementSubList).SetPlmnDigit", "(*uePolicyContainer.UEPolicySectionManagementSubResult).SetPlmnDigit",
+	// truncated / unknown messages are errors
+	"(*uePolicyContainer.UePolDeliverySer).UePolDeliverySerDecode",
 	// lengths computed from content on every encoding
 	"(*uePolicyContainer.UEPolicyPart).MarshalBinary", "(*uePolicyContainer.Instruction).MarshalBinary",
 	"(*uePolicyContainer.UEPolicySectionManagementSubList).MarshalBinary", "(*uePolicyContainer.UEPolicySectionManagementSubResult).MarshalBinary",
 }
 
 var c18Safety = []string{
-	"(*uePolicyContainer.UePolDeliverySer).UePolDeliverySerDecode",
 	"(*uePolicyContainer.ManageUEPolicyCommand).DecodeManageUEPolicyCommand", "(*uePolicyContainer.ManageUEPolicyComplete).DecodeManageUEPolicyComplete",
 	"(*uePolicyContainer.ManageUEPolicyReject).DecodeManageUEPolicyReject",
 	"(*uePolicyContainer.UePolDeliverySer).UePolDeliverySerEncode",
